@@ -81,7 +81,8 @@ Definition no_rewrite (cf : config) (s : spec_state) (ke : kernel) (ments : list
   let reach := reachable cf s in
   forallb (forallb (fun c =>
     match get c ke with
-    | Some L => negb (olines_eqb (Some L) (target cf s reach ke c))
+    | Some L => (cf_nft cf && match L with [] => true | _ => false end)   (* nft mode re-flushes an empty chain: no rule is rewritten *)
+                || negb (olines_eqb (Some L) (target cf s reach ke c))
     | None => true     (* create-and-delete of a chain that does not exist rewrites nothing *)
     end)) ments.
 
